@@ -951,6 +951,13 @@ class SymOut:
         self.code = code
 
 
+class TypedDyn:
+    """the loop value as a number in the caller's type (Lean `TVal R`): only `float(v)`, `-v` and `v is None`
+    are in the grammar, so the ORDER of conversion and negation is translated (`-float(v)` vs `float(-v)`)"""
+    def __init__(self, code):
+        self.code = code
+
+
 class _PyRaise(Exception):
     def __init__(self, name):
         self.name = name
@@ -977,14 +984,32 @@ class AliasInterp(Interp):
     def ev_Compare(self, node, sc):
         if len(node.ops) == 1 and isinstance(node.ops[0], (ast.Is, ast.IsNot)):
             a, b = self.ev(node.left, sc), self.ev(node.comparators[0], sc)
-            if isinstance(a, Dyn) and b is None:
+            if isinstance(a, (Dyn, TypedDyn)) and b is None:
                 return isinstance(node.ops[0], ast.IsNot)
         return super().ev_Compare(node, sc)
+
+    def ev_UnaryOp(self, node, sc):
+        if isinstance(node.op, ast.USub):
+            v = self.ev(node.operand, sc)
+            if isinstance(v, TypedDyn):
+                return TypedDyn(f"(QuantemModel.Aberration.TVal.neg {v.code})")
+            if is_num(v):
+                return -v
+            return Dyn(f"(-{to_dyn(v, node).code})")
+        return super().ev_UnaryOp(node, sc)
+
+    def ev_BinOp(self, node, sc):
+        a, b = self.ev(node.left, sc), self.ev(node.right, sc)
+        if isinstance(a, TypedDyn) or isinstance(b, TypedDyn):
+            bad(node, "arithmetic on the loop value before float() (only `-value` is in the grammar)")
+        return super().ev_BinOp(node, sc)
 
     def call_builtin(self, node, name, args, kwargs, sc):
         if name == "float" and len(args) == 1 and not kwargs:
             if args[0] is None:
                 raise _PyRaise("TypeError")
+            if isinstance(args[0], TypedDyn):
+                return Dyn(f"(QuantemModel.Aberration.TVal.toFloat {args[0].code})")
             return to_dyn(args[0], node)
         if name == "isinstance" and len(args) == 2 and args[1] == ("builtin", "dict"):
             return False        # the loop value is None or a number here; dict values are handled by the caller's recursion
@@ -1066,14 +1091,14 @@ def translate_alias_step(mod, root, consts, universe, lean_name, what):
 
     lines = []
     for i, key in enumerate(list(universe) + [SENTINEL]):
-        a_none, a_some = arm(key, None), arm(key, Dyn("x"))
-        body = f"(match val with | none => {a_none} | some x => {a_some})"
+        a_none, a_some = arm(key, None), arm(key, TypedDyn("v"))
+        body = f"(match val with | none => {a_none} | some v => {a_some})"
         if key == SENTINEL:
             lines.append(f"else {body}")
         else:
             lines.append(f"{'if' if i == 0 else 'else if'} key = {lean_str(key)} then {body}")
-    return (f"/-- {what}: one iteration of the `for {kname}, {vname} in ….items()` loop (value `none` = Python `None`) -/\n"
-            f"def {lean_name} (out : List (String × R)) (key : String) (val : Option R) : "
+    return (f"/-- {what}: one iteration of the `for {kname}, {vname} in ….items()` loop (value `none` = Python `None`, otherwise a number in the caller's type) -/\n"
+            f"def {lean_name} (out : List (String × R)) (key : String) (val : Option (QuantemModel.Aberration.TVal R)) : "
             f"Except QuantemModel.Aberration.Err (List (String × R)) :=\n  " + "\n  ".join(lines) + "\n")
 
 
